@@ -16,8 +16,8 @@ let rec int_of_pos (p : positive) : int =
 let int_of_z (x : z) : int =
   match x with Z0 -> 0 | Zpos p -> int_of_pos p | Zneg p -> - (int_of_pos p)
 
-let rec nat_of_int (n : int) : nat = if n <= 0 then O else S (nat_of_int (n - 1))
-let rec int_of_nat (n : nat) : int = match n with O -> 0 | S m -> 1 + int_of_nat m
+(* nat conversions are not defined here: not every extracted model contains nat; a driver that needs
+   them defines  let rec nat_of_int n = if n <= 0 then O else S (nat_of_int (n - 1))  itself *)
 
 (* floor to Z: the C++ casts cvm::floor(x) to int; inputs are generated well inside the int range *)
 let z_of_float_floor (x : float) : z =
